@@ -163,6 +163,29 @@ CHECKS["C09"] = dict(engine="Curl", design_ref="§5 C09",
          "id header are not compared; curl runs in an empty working directory; dot segments and URL globbing are outside the model; non-ASCII header values and binary "
          "payloads are excluded by the property itself")
 
+CHECKS["C20"] = dict(engine="GraphQL", design_ref="§5 C20",
+    technique="TLA+ GraphQL.tla (input coercion TypeOK, document well-formedness on a projected AST, operation selection) with TLC enumeration of schema shapes and "
+              "name filters; real SDL / introspection loaders and strategies driven per shape; graphql-core's parser projects each generated document to an AST that "
+              "GraphQLJudge.tla judges; graphql-core's validator runs side by side only to keep the oracle honest",
+    text="Model checking of an explicit TLA+ specification of GraphQL input coercion, document well-formedness and operation selection. TLC enumerates every schema "
+         "shape of the bounded family (0-2 arguments over 12 base types x 5 wrappers, 6 return kinds, Query/Mutation name clash, custom root names, Subscription; "
+         "quick 80, thorough 460) and all 57 name-filter pairs per shape, and checks the design invariants on each. Every shape is loaded through the SDL and "
+         "introspection loaders; every projected AST of the sampled Hypothesis draws and every offered-set / count observation is judged by TLC against the spec "
+         "operators. Exhaustive over shapes and filters within the bound, sampled over draws.",
+    note=COMMON_TRUST + "; the graphql-core parser and the ~60-line AST projection; custom scalars are judged by declared literal kind; non-null values for "
+         "unregistered scalars are undetermined; variables, directives and named fragments are outside the generated fragment")
+CHECKS["C13"] = dict(engine="Repro", design_ref="§5 C13",
+    technique="TLA+ trace specification Repro.tla (lock-step comparison of request logs, bag comparison for several workers); the real engine is run in fresh "
+              "subprocesses with different PYTHONHASHSEED, in a warm process, with 3 workers and with another seed; the server log is the ground truth",
+    text="Trace validation against an explicit TLA+ specification of reproducibility. For each configuration the real engine is run six times against a deterministic, "
+         "stateless scripted server; the server logs are cut per phase and projected to digests. Same seed with one worker requires position-wise equality and equal "
+         "failure sets; several workers require per-operation bag equality in the examples, coverage and fuzzing phases; different seeds are unconstrained but checked "
+         "for non-vacuity. A rejection names phase, operation, first divergent field and the attributed entropy source. Not exhaustive: the seed x schema space cannot "
+         "be enumerated by TLC (12 configurations quick, 150 thorough, seeds derived from VERIF_SEED).",
+    note=COMMON_TRUST + "; the digest excludes the test-case id and Host headers; Hypothesis' local-constants pool is emptied in the children and each child has its "
+         "own working directory; compat.enable_links is applied; health checks, deadlines and the example database are off; the API script is a pure function of "
+         "(method, target, body)")
+
 REASON_PENDING = "no check registered yet: spec/harness for this property is still being built (DESIGN.md §10 build order); nothing is claimed"
 
 
